@@ -41,6 +41,10 @@ type c11W struct {
 	Graph *model.GraphData `json:"graph"`
 	Ops   []jobOp          `json:"ops"`
 	BigRow bool            `json:"big_row,omitempty"`
+	// a reader of stored results that stalls: after StallAfter rows it pauses
+	// for StallUs of simulated time, then goes on reading
+	StallAfter int `json:"stall_after,omitempty"`
+	StallUs    int `json:"stall_us,omitempty"`
 }
 
 func init() {
@@ -94,6 +98,9 @@ func genC11(r *Rng, tier string) *c11W {
 	}
 	if r.Chance(30) {
 		w.Run.SlowSite, w.Run.SlowPct = "serializer.go", 20
+	}
+	if r.Chance(15) {
+		w.StallAfter, w.StallUs = 1+r.Intn(5), []int{12000000, 90000000}[r.Intn(2)]
 	}
 	n := 2 + r.Intn(6)
 	submitted := 0
@@ -190,6 +197,9 @@ func execC11(w *c11W, x *Exec) *Outcome {
 	if w.BigRow {
 		o.Count("fault:row_larger_than_scan_buffers", 1)
 	}
+	if w.StallUs > 0 {
+		o.Count("fault:stalled_reader_of_stored_results", 1)
+	}
 	cfg := w.Run.Sim()
 	if cfg.MaxSteps == 0 {
 		cfg.MaxSteps = 4000000
@@ -273,6 +283,14 @@ func execC11(w *c11W, x *Exec) *Outcome {
 			}
 			view := func(jr *jobRec, when string) {
 				ts := &traversalStream{}
+				if w.StallUs > 0 {
+					ts.OnRow = func(n int) {
+						if n == w.StallAfter {
+							simrt.Probe("reader of stored results stalled")
+							sleepSim(w.StallUs)
+						}
+					}
+				}
 				srv.Srv.ViewJob(&gripql.QueryJob{Graph: "g", Id: jr.id}, ts)
 				if jr.deleted {
 					if len(ts.Rows) > 0 {
